@@ -346,20 +346,17 @@ func createUpstreamRequest(rw http.ResponseWriter, r *http.Request) (*http.Reque
 		outreq.Body = nil
 	}
 
-	// We are modifying the same underlying map from req (shallow
-	// copied above) so we only copy it if necessary.
-	copiedHeaders := false
+	// outreq.Header must not share the underlying map with r.Header
+	// (shallow copied above): the header rules rewrite outreq.Header
+	// while their {>Header} placeholders are read from r.Header.
+	outreq.Header = make(http.Header, len(r.Header))
+	copyHeader(outreq.Header, r.Header)
 
 	// Remove hop-by-hop headers listed in the "Connection" header.
 	// See RFC 2616, section 14.10.
 	for _, c := range outreq.Header["Connection"] {
 		for _, f := range strings.Split(c, ",") {
 			if f = strings.TrimSpace(f); f != "" {
-				if !copiedHeaders {
-					outreq.Header = make(http.Header)
-					copyHeader(outreq.Header, r.Header)
-					copiedHeaders = true
-				}
 				outreq.Header.Del(f)
 			}
 		}
@@ -369,14 +366,7 @@ func createUpstreamRequest(rw http.ResponseWriter, r *http.Request) (*http.Reque
 	// important is "Connection" because we want a persistent
 	// connection, regardless of what the client sent to us.
 	for _, h := range hopHeaders {
-		if _, ok := outreq.Header[h]; ok {
-			if !copiedHeaders {
-				outreq.Header = make(http.Header)
-				copyHeader(outreq.Header, r.Header)
-				copiedHeaders = true
-			}
-			outreq.Header.Del(h)
-		}
+		outreq.Header.Del(h)
 	}
 
 	if clientIP, _, err := net.SplitHostPort(r.RemoteAddr); err == nil {
